@@ -73,6 +73,14 @@ Theorem C19_concat_split {A} (i : Z) (inputs : list (list A)) :
   concat_along_axis [fst (split_along_axis i inputs); snd (split_along_axis i inputs)] = Some inputs.
 Proof. exact (concat_split i inputs). Qed.
 
+(** split_axis(keep_dims=True) gives one pytree per index and concat_along_axis
+    of those pytrees is the input (all leaves of size n >= 1 along the axis) *)
+Theorem C19_split_axis_concat {A} (inputs : list (list A)) (n : nat) :
+  inputs <> [] -> (1 <= n)%nat -> Forall (fun a => length a = n) inputs ->
+  exists trees, split_axis_keep inputs = Some trees /\ length trees = n /\
+                concat_along_axis trees = Some inputs.
+Proof. exact (split_axis_concat inputs n). Qed.
+
 Theorem C19_empty_pytree {A} : @pack_pytree A [] = None /\ @stack_pytree A [] = None.
 Proof. exact pack_empty. Qed.
 
@@ -158,6 +166,7 @@ Print Assumptions C19_replace_structure.
 Print Assumptions C19_unpack_pack.
 Print Assumptions C19_unstack_stack.
 Print Assumptions C19_concat_split.
+Print Assumptions C19_split_axis_concat.
 Print Assumptions C19_empty_pytree.
 Print Assumptions C19_down_up_identity.
 Print Assumptions C19_upsample_coef.
